@@ -58,6 +58,7 @@ REQUIRED = ["io_roundtrips", "io_tiff", "io_npy", "io_nrrd", "io_uint_to_float",
             "raster_saved_and_read", "raster_explicit_ranges", "raster_thin_tiles",
             "raster_whole_brain_coordinates",
             "rasters_after_inplace_edit", "rasters_of_derived_trees", "io_non_contiguous_input",
+            "io_small_integer_values",
             "transformer_reused", "rejected_calls_before_raster",
             "tap_get_samplers"]
 FLOOR = {"quick": 450, "thorough": 45000}
@@ -76,6 +77,15 @@ def pattern(shape4, dtype, kind, seed):
         lev = v / 250.0
     elif kind == "random":
         lev = np.random.default_rng(seed).random(shape4)
+    elif kind in ("mask", "ones", "low"):
+        # raw integer values, not levels: a 0/1 mask, an all-ones stack, values 0..3 (what label
+        # volumes hold); as floats the same small numbers
+        rng_ = np.random.default_rng(seed)
+        raw = {"mask": lambda: rng_.integers(0, 2, shape4), "ones": lambda: np.ones(shape4),
+               "low": lambda: rng_.integers(0, 4, shape4)}[kind]()
+        if kind == "mask":
+            raw.reshape(-1)[0] = 1
+        return raw.astype(dtype) if not dtype.startswith("float") else (raw / 4.0).astype(dtype)
     else:
         lev = np.full(shape4, 0.5)
     if dtype.startswith("float"):
@@ -117,6 +127,8 @@ def check_io(ctx, case, tmp):
         a = big[::2]
     if lay != "C":
         ctx.count("io_non_contiguous_input")
+    if case["pattern"] in ("mask", "ones", "low") and not case["dtype"].startswith("float"):
+        ctx.count("io_small_integer_values")
     keep = a.copy()
     stored = a4
     if fmt.startswith("tiff"):
@@ -508,7 +520,8 @@ def run(ctx):
             if fmt.startswith("tiff") and dtype == "uint32" and len(shape) == 4 and shape[3] == 3:
                 dtype = "uint16"
             case = {"kind": "io", "shape": list(shape), "dtype": dtype, "fmt": fmt,
-                    "pattern": str(rng.choice(["ramp", "ramp", "random", "constant"])),
+                    "pattern": str(rng.choice(["ramp", "ramp", "random", "constant", "mask", "ones",
+                                               "low"])),
                     "seed": int(rng.integers(0, 2**31 - 1)),
                     "save_dtype": None, "compression": None,
                     "read_dtype": [None, None, "uint8", "uint16", "float32", "float64"][
